@@ -45,7 +45,7 @@ class ReqWorld(World):
     name = "W-req"
 
     def __init__(self, dispatcher: bool = False, controller: bool = True, pairs: bool = True, fleets=(),
-                 requests=("r0", "r1", "r2"), cancel: int = 180, low: bool = True, name: str = "", dispatch_states=None):
+                 requests=("r0", "r1", "r2"), cancel: int = 180, low: bool = True, name: str = "", dispatch_states=None, prestart=()):
         super().__init__()
         self.pairs = pairs
         if name:
@@ -93,12 +93,32 @@ class ReqWorld(World):
             ("DispatchStation", "s0", "DCFC"),
             ("Reposition", link_m),
         ]
+        pool = [r for r in self.request_specs if self.request_specs[r].get("allows_pooling")]
+        if len(pool) >= 2:
+            # pooling re-plans (only accepted for a vehicle that already serves a pooling trip): the other pooling request
+            # is picked up before / after the current passengers are dropped
+            a, b = pool[:2]
+            for x, y in ((a, b), (b, a)):
+                per_vehicle += [("Pool", f"{x}:D", f"{y}:P", f"{y}:D"), ("Pool", f"{y}:P", f"{x}:D", f"{y}:D"), ("Pool", f"{y}:P", f"{y}:D", f"{x}:D")]
         vids = [v.id for v in vehicles]
         self.controller_menu = (
             [("I", k[0], vid) + tuple(k[1:]) for vid in vids for k in per_vehicle] if controller else []
         )
         # idle_duration is never read within the horizon (time-out far beyond it): drop it from the key
         self._idle_clip = 0
+        self._start_hv = {}
+        if prestart:
+            # a second start state in which these requests have just been admitted (through the same admission path), so that
+            # histories needing "request waiting" do not spend their deviation budget on the arrivals
+            from nrel.hive.state.simulation_state.update.update_requests_from_file import update_requests_from_iterator
+
+            sim0 = self.starts["init"]
+            rows = [self.request_row(n, int(sim0.sim_time)) for n in prestart]
+            sim1 = update_requests_from_iterator(iter(rows), sim0, env, self.rate_structure)
+            self.env.reporter.take()
+            label = "waiting:" + ",".join(prestart)
+            self.starts[label] = sim1
+            self._start_hv[label] = (frozenset(prestart), tuple(sorted((n, "waiting") for n in prestart)))
 
     @property
     def idle_clip(self) -> int:
@@ -110,6 +130,9 @@ class ReqWorld(World):
 
     def released(self, hv) -> frozenset:
         return hv[0]
+
+    def hv0_for(self, label: str) -> Any:
+        return self._start_hv.get(label, self.hv0())
 
     def hv_next(self, hv, pre, events, post, reports) -> Any:
         released, statuses = hv
